@@ -60,7 +60,8 @@ type refEntry struct {
 	once    sync.Once
 	res     *proto.OpResult
 	err     error
-	crashed bool // the pristine process itself died on this chain
+	crashed bool     // the pristine process itself died on this chain
+	visits  []uint32 // per map site: visits with >=2 entries during the pristine run
 }
 
 // server is one persistent worker process.
@@ -402,6 +403,22 @@ func (x *executor) reference(ss *session, sc *proto.Scenario, chain []proto.Ref)
 		}
 		last := res.Ops[len(res.Ops)-1]
 		e.res = &last
+		e.visits = res.Stats.MapVisits
 	})
 	return e.res, e.crashed, e.err
+}
+
+// referenceVisits: which map sites (with >=2 entries) the pristine run of this
+// chain walked.
+func (x *executor) referenceVisits(ss *session, sc *proto.Scenario, chain []proto.Ref) []uint32 {
+	if _, _, err := x.reference(ss, sc, chain); err != nil {
+		return nil
+	}
+	_, key := refScenario(sc, chain)
+	x.refMu.Lock()
+	defer x.refMu.Unlock()
+	if e, ok := x.refs[key]; ok {
+		return e.visits
+	}
+	return nil
 }
